@@ -7,6 +7,7 @@ func Checks() map[string]*simcore.Check {
 		"C06": check06(),
 		"C07": check07(),
 		"C11": check11(),
+		"C12": check12(),
 	}
 }
 
@@ -70,5 +71,26 @@ func check11() *simcore.Check {
 		Gen:       Gen11, Decode: Decode11, Run: Run11, Shrink: Shrink11,
 		ProbeNames: []string{"empty-state", "single-account-fold", "single-partition-fold", "all-16-partitions", "partitions-interleaved", "mid-run-batch-flush",
 			"stale-root-rewritten", "dangling-storage-deleted", "root-mismatch-reported", "rerun-after-abort", "progress-ticker-period-elapsed"},
+	}
+}
+
+func check12() *simcore.Check {
+	return &simcore.Check{
+		ID: "C12", Engine: "triesim", Level: "exploration",
+		Rule: "plans = a source state of 1-150 accounts (hashes sharing prefixes), 0-5 storage tries of 0-60 slots some shared by several accounts, 0-3 codes some shared; destination pre-populated with nothing / complete random subtries (with the storage and code below them) / path scheme: the complete node set of a different state derived from the target / all code; a list of 5-400 requester actions (Missing(n) with n in {1,2,3,5,8,16,64,unlimited}, answer an arbitrary in-flight request, answer again something already answered, answer with an undecodable blob, Commit to the disk, restart with a new Sync object on the same disk), then a drain phase in which every request is answered once. Real state.NewStateSync/trie.Sync; the peer serves nodes from a refmpt-built node set. The concurrent local presence checks inside ProcessNode park at gates and are released by the tape. Non-trivial = at least two requests were issued. Distinct = distinct (gate sequence, deliveries/restarts/commits, root) fingerprints.",
+		Assumptions: []string{
+			"by contract the caller matches a response to its request by hash before ProcessNode (snap.Syncer does); blobs that decode but hash differently are therefore not delivered here, only undecodable ones",
+			"responses addressed to a dropped Sync object are dropped with it (not replayed into the new one)",
+			"pre-populated subtries are complete (a present node implies its whole subtrie, storage and code), as the sync's own commit order guarantees",
+			"path scheme: unreachable leftovers of the planted other state that the sync never touches are outside the property; only what the sync writes or deletes is judged, plus completeness of the target",
+		},
+		Components: simcore.Components{
+			Real: []string{"trie.Sync (Missing, ProcessNode, ProcessCode, Commit, children, hasNode, membatch)", "core/state.NewStateSync", "common/prque", "core/rawdb trie-node and code accessors", "triedb hashdb/pathdb + trie iterator (read-back)"},
+			Stub: []string{"disk: simdisk.SimKV behind a gated reader", "network/peer: requester loop with reorder, duplication, batching, undecodable answers, restart", "clock: synctest bubble"},
+		},
+		Perturbed: []string{},
+		Runs:      map[string]int{"quick": 8000, "thorough": 300000},
+		Gen:       Gen12, Decode: Decode12, Run: Run12, Shrink: Shrink12,
+		ProbeNames: []string{"concurrent-presence-checks", "pre-complete-subtrie", "pre-variant-state", "pre-all-code", "inconsistent-node-deleted", "completed-after-restart", "leaf-callback", "storage-tries-synced", "code-synced"},
 	}
 }
